@@ -22,7 +22,7 @@ batch crate and `cargo check --message-format=json` must report no error (diagno
 file name). Definitions that fall into a recorded known-finding class are generated too, but go to a separate \
 batch; their diagnostics must have the recorded shape. Rejection half: near-miss texts and duplicate definitions \
 must make generate()/compile() return Err without output, the binary exit non-zero with a diagnostic and empty \
-stdout, a build-script helper exit 1, a macro fail to expand. Non-trivial: a definition with an anonymous type \
+stdout, a build-script helper exit 1, a macro fail to expand. Histories of build-script helper runs sharing one output directory (rejected / valid / rejected-not-newer): each run succeeds exactly when its definition is valid. Non-trivial: a definition with an anonymous type \
 under array/map/optional or a keyword-like name; distinct by definition text.";
 
 pub fn opts() -> GenOpts {
